@@ -23,6 +23,7 @@ OwnLts(g) == SelectSeq(g.ps, IsLt)
 CpLts(g) == CASE g.cargs = "same" -> [i \in DOMAIN OwnLts(g) |-> PName(OwnLts(g)[i])]
               [] g.cargs = "foreign" -> <<"'x">>
               [] g.cargs = "foreign2" -> <<"'x", "'x">>
+              [] g.cargs = "foreign3" -> <<"'x", "'w", "'x">>          \* a repeated foreign lifetime around a second one (order of first occurrence)
               [] g.cargs = "static" -> <<"'static">>
               [] OTHER -> <<>>
 \* lifetimes that occur only in the counterpart's path must be declared on the impl ('static is not a parameter)
